@@ -256,5 +256,58 @@ Proof.
   all: try (constructor; bcsimpl; cbn [dp_shape deq_busy]; try assumption; try exact I;
             try (intros Hp; exfalso; exact (Hpre Hp)); try (intros _; exact Hg); try discriminate;
             try (eexists; eexists; reflexivity); fail).
-  all: match goal with |- ?G => idtac G end.
-Abort.
+  - destruct backack; constructor; bcsimpl; cbn [dp_shape deq_busy]; try assumption;
+      try (intros Hp; exfalso; exact (Hpre Hp)); try (intros _; exact Hg); eexists; eexists; reflexivity.
+  - constructor; bcsimpl; cbn [dp_shape deq_busy]; try assumption;
+      try (intros Hp; exfalso; exact (Hpre Hp)); try (intros _; exact Hg).
+    eexists; eexists; split; [reflexivity|exact I4].
+  - destruct I4 as (m & id & -> & Hq).
+    destruct ba; constructor; bcsimpl; cbn [dp_shape deq_busy]; try assumption;
+      try (intros Hp; exfalso; exact (Hpre Hp)); try (intros _; exact Hg);
+      try (eexists; eexists; reflexivity); (apply store_save_forall; [exact I6|reflexivity]).
+  - destruct I4 as (m & id & ->).
+    destruct (m_qos m =? 0); constructor; bcsimpl; cbn [dp_shape deq_busy]; try assumption; try exact I;
+      try (intros Hp; exfalso; exact (Hpre Hp)); discriminate.
+Qed.
+
+Lemma INV_ack s e s' : INV s -> step_ack s e = Some s' -> INV s'.
+Proof.
+  intros HI H. pose proof (step_ack_sum _ _ _ H) as (Hs & _ & He).
+  assert (Hnp : pre_loop (pp s) = true -> False).
+  { intros Hp. destruct (I_pre _ HI Hp) as [_ Ha]. unfold step_ack in H. rewrite Ha in H. discriminate H. }
+  apply (INV_same s s' Hs); [|intros Hp; exfalso; exact (Hnp Hp)|exact HI].
+  destruct e; try contradiction.
+  - destruct async; [|contradiction]. destruct He as (q' & Ht & <- & _).
+    eapply ackq_take_forall; [exact Ht|apply (I_ackq _ HI)].
+  - rewrite He. apply (I_ackq _ HI).
+  - destruct k; try contradiction. rewrite He. apply (I_ackq _ HI).
+Qed.
+
+Lemma INV_step s e s' : INV s -> step s e = Some s' -> INV s'.
+Proof.
+  intros HI H. apply step_inv in H.
+  destruct H as [He Ho ->|He Ho ->|He Hq ->|Hc|g s1 Hg Hl Hr Ho Hp|g s1 Hg Hl Hr Ho Hnp Hd
+                |g s1 Hg Hl Hr Ho Hnp Hnd Ha|g s1 Hg Hl Hr Ho Hc|He Hc|g He Ho ->].
+  - destruct HI as [I1 I2 I3 I4 I5 I6 I7]. constructor; bcsimpl; try exact I; try constructor; try discriminate.
+    + exact I6.
+  - exact HI.
+  - exact HI.
+  - apply step_clo_sum in Hc as (_ & Hs & _ & Ha & Hq).
+    apply (INV_same s s' Hs); [|intros _; exact Ha|exact HI].
+    destruct Hq as [->|(a & ->)]; [apply (I_ackq _ HI)|].
+    apply Forall_app. split; [apply (I_ackq _ HI)|]. constructor; [destruct a; reflexivity|constructor].
+  - eapply INV_proc; [eapply INV_learned; eassumption|exact Hp].
+  - eapply INV_deq; [eapply INV_learned; eassumption| |exact Hd]. rewrite Hr. discriminate.
+  - eapply INV_ack; [eapply INV_learned; eassumption|exact Ha].
+  - pose proof (INV_learned _ _ Hl HI) as HI1.
+    apply step_cleanup_sum in Hc as (_ & [(Hs & Hq & Ha)|Hf]).
+    + apply (INV_same s1 s' Hs); [rewrite Hq; apply (I_ackq _ HI1)|intros _; exact Ha|exact HI1].
+    + eapply INV_frozen; eassumption.
+  - apply step_cleanup_sum in Hc as (_ & [(Hs & Hq & Ha)|Hf]).
+    + apply (INV_same s s' Hs); [rewrite Hq; apply (I_ackq _ HI)|intros _; exact Ha|exact HI].
+    + eapply INV_frozen; eassumption.
+  - destruct HI as [I1 I2 I3 I4 I5 I6 I7]. constructor; bcsimpl; assumption.
+Qed.
+
+Theorem INV_reachable es s : bc_run es = Some s -> INV s.
+Proof. apply (bc_invariant INV INV_init INV_step). Qed.
